@@ -1,0 +1,211 @@
+//go:build verif
+
+// Contracts for package console, read as text by /verif/engine (govc); no code.
+// Arithmetic mode "int": machine integers are SMT integers; the code's add/sub
+// wrap exactly, every code multiplication carries a generated no-overflow
+// obligation, spec arithmetic is mathematical.
+
+package console
+
+//@ mode int
+
+// ---- VGA text console --------------------------------------------------------------------
+//@ pred wfVga(c *VgaTextConsole) = c != nil && c.width >= 1 && c.height >= 1 && c.width*c.height < 0x40000000 && len(c.fb) == c.width*c.height && !isnil(c.fb) && len(c.palette) == 16
+// the 16-bit text cell: character in the low byte, attribute (bg<<4 | fg) in the high byte
+//@ spec vgaCell(ch uint8, fg uint8, bg uint8) uint16 = (((uint16(bg) << 4) | uint16(fg)) << 8) | uint16(ch)
+
+//@ func (cons *VgaTextConsole) Write(ch byte, fg uint8, bg uint8, x uint32, y uint32)
+//@   property C19
+//@   requires wfVga(cons)
+//@   modifies elems(uint16)
+//@   ensures outside: !(x >= 1 && x <= cons.width && y >= 1 && y <= cons.height) ==> forall(i, int, 0 <= i && i < len(cons.fb) ==> cons.fb[i] == old(cons.fb[i]))
+//@   ensures cell: x >= 1 && x <= cons.width && y >= 1 && y <= cons.height ==> cons.fb[(y-1)*cons.width + (x-1)] == vgaCell(ch, ite(fg > 15, cons.defaultFg, fg), ite(bg > 15, cons.defaultBg, bg))
+//@   ensures others: forall(i, int, 0 <= i && i < len(cons.fb) && i != (y-1)*cons.width + (x-1) ==> cons.fb[i] == old(cons.fb[i]))
+
+// Fill: the rectangle's origin is clamped into the grid, its extent clipped at the right and bottom
+// edges (computed without wrap-around), and exactly those cells become the clear character in (fg,bg)
+//@ spec clampOrg(v uint32, max uint32) uint32 = ite(v == 0, 1, ite(v >= max, max, v))
+//@ spec clipEnd(org uint32, ext uint32, max uint32) uint32 = ite(org + ext - 1 > max, max, org + ext - 1)
+//@ pred inRect(c *VgaTextConsole, x uint32, y uint32, w uint32, h uint32, cx uint32, cy uint32) = cx >= clampOrg(x, c.width) && cx <= clipEnd(clampOrg(x, c.width), w, c.width) && cy >= clampOrg(y, c.height) && cy <= clipEnd(clampOrg(y, c.height), h, c.height)
+//@ spec clearCell(c *VgaTextConsole, fg uint8, bg uint8) uint16 = (((uint16(bg) << 4) | uint16(fg)) << 8) | c.clearChar
+
+//@ func (cons *VgaTextConsole) Fill(x uint32, y uint32, width uint32, height uint32, fg uint8, bg uint8)
+//@   property C19
+//@   requires wfVga(cons)
+//@   modifies elems(uint16)
+//@   ensures cells: forall(cx, uint32, cy, uint32, cx >= 1 && cx <= cons.width && cy >= 1 && cy <= cons.height ==> cons.fb[(cy-1)*cons.width + (cx-1)] == ite(inRect(cons, old(x), old(y), old(width), old(height), cx, cy), clearCell(cons, fg, bg), old(cons.fb[(cy-1)*cons.width + (cx-1)])))
+//@   loop 1 (height > 0) ghost h0 = height
+//@   loop 1 invariant ox: x == clampOrg(old(x), cons.width)
+//@   loop 1 invariant oy: y == clampOrg(old(y), cons.height)
+//@   loop 1 invariant ex: x + width - 1 == clipEnd(x, old(width), cons.width)
+//@   loop 1 invariant ey: y + h0 - 1 == clipEnd(y, old(height), cons.height)
+//@   loop 1 invariant cl: clr == clearCell(cons, fg, bg)
+//@   loop 1 invariant height <= h0 && rowOffset == (y - 1 + (h0 - height))*cons.width + (x - 1)
+//@   loop 1 invariant rows: forall(cx, uint32, cy, uint32, cx >= 1 && cx <= cons.width && cy >= 1 && cy <= cons.height ==> cons.fb[(cy-1)*cons.width + (cx-1)] == ite(inRect(cons, old(x), old(y), old(width), old(height), cx, cy) && cy < y + (h0 - height), clr, old(cons.fb[(cy-1)*cons.width + (cx-1)])))
+//@   loop 2 (colOffset < rowOffset+width) invariant colOffset >= rowOffset && colOffset <= rowOffset + width && height >= 1
+//@   loop 2 invariant cols: forall(cx, uint32, cy, uint32, cx >= 1 && cx <= cons.width && cy >= 1 && cy <= cons.height ==> cons.fb[(cy-1)*cons.width + (cx-1)] == ite(inRect(cons, old(x), old(y), old(width), old(height), cx, cy) && (cy < y + (h0 - height) || (cy == y + (h0 - height) && cx - 1 < colOffset - (y - 1 + (h0 - height))*cons.width)), clr, old(cons.fb[(cy-1)*cons.width + (cx-1)])))
+
+//@ func (cons *VgaTextConsole) Scroll(dir ScrollDir, lines uint32)
+//@   property C19
+//@   requires wfVga(cons)
+//@   modifies elems(uint16)
+//@   ensures ignored: lines == 0 || lines > cons.height || (dir != ScrollDirUp && dir != ScrollDirDown) ==> forall(j, int, 0 <= j && j < len(cons.fb) ==> cons.fb[j] == old(cons.fb[j]))
+//@   ensures up: lines >= 1 && lines <= cons.height && dir == ScrollDirUp ==> forall(j, int, 0 <= j && j < len(cons.fb) ==> cons.fb[j] == ite(j < (cons.height - lines)*cons.width, old(cons.fb[j + lines*cons.width]), old(cons.fb[j])))
+//@   ensures down: lines >= 1 && lines <= cons.height && dir == ScrollDirDown ==> forall(j, int, 0 <= j && j < len(cons.fb) ==> cons.fb[j] == ite(j >= lines*cons.width, old(cons.fb[j - lines*cons.width]), old(cons.fb[j])))
+//@   loop 1 (i < (cons.height-lines)*cons.width) invariant i <= (cons.height - lines)*cons.width && offset == lines*cons.width && lines >= 1 && lines <= cons.height
+//@   loop 1 invariant moved: forall(j, int, 0 <= j && j < len(cons.fb) ==> cons.fb[j] == ite(j < i, old(cons.fb[j + lines*cons.width]), old(cons.fb[j])))
+//@   loop 2 (i >= lines*cons.width) invariant i >= lines*cons.width - 1 && i <= cons.height*cons.width - 1 && offset == lines*cons.width && lines >= 1 && lines <= cons.height
+//@   loop 2 invariant moved: forall(j, int, 0 <= j && j < len(cons.fb) ==> cons.fb[j] == ite(j > i, old(cons.fb[j - lines*cons.width]), old(cons.fb[j])))
+
+// a (row, byte-in-row) pair is determined by its flat offset: r*p+b = r0*p+b0 with b, b0 < p implies r = r0 and b = b0
+//@ lemma rowcol(r uint32, b uint32, r0 uint32, b0 uint32, p uint32): b < p && b0 < p && r*p + b == r0*p + b0 ==> r == r0 && b == b0
+//@   by auto
+//@   property C19 C18 C17
+
+// ---- VESA framebuffer console -----------------------------------------------------------------
+//@ pred wfFont(f *font.Font) = f != nil && f.GlyphWidth >= 1 && f.GlyphWidth <= 32 && f.GlyphHeight >= 1 && f.GlyphHeight <= 64 && f.BytesPerRow == (f.GlyphWidth + 7) / 8 && !isnil(f.Data) && len(f.Data) >= 256*f.BytesPerRow*f.GlyphHeight
+//@ pred wfVesa(c *VesaFbConsole) = c != nil && (c.bpp == 8 || c.bpp == 15 || c.bpp == 16 || c.bpp == 24 || c.bpp == 32) && c.bytesPerPixel == (c.bpp+1)/8 && c.width >= 1 && c.height >= 1 && c.pitch >= c.width*c.bytesPerPixel && c.pitch < 0x10000 && c.height < 0x8000 && len(c.fb) == c.height*c.pitch && !isnil(c.fb) && c.offsetY <= c.height && len(c.palette) == 256 && forall(i, int, 0 <= i && i < 256 ==> typeis(c.palette[i], color.RGBA)) && (c.bpp > 8 ==> c.colorInfo != nil && c.colorInfo.RedMaskSize <= 8 && c.colorInfo.GreenMaskSize <= 8 && c.colorInfo.BlueMaskSize <= 8) && (c.font != nil ==> wfFont(c.font) && c.widthInChars >= 1 && c.heightInChars >= 1 && c.widthInChars*c.font.GlyphWidth <= c.width && c.heightInChars*c.font.GlyphHeight <= c.height - c.offsetY)
+// byte (r, b) of the framebuffer: row r (0-based pixel row), byte b of that row (0 <= b < pitch, padding included)
+//@ spec fbAt(c *VesaFbConsole, r uint32, b uint32) uint8 = c.fb[r*c.pitch + b]
+
+//@ func (cons *VesaFbConsole) fill8(pX uint32, pY uint32, pW uint32, pH uint32, bg uint8)
+//@   property C19
+//@   requires wfVesa(cons) && cons.bytesPerPixel == 1 && pX + pW <= cons.width && pY + pH <= cons.height - cons.offsetY
+//@   modifies elems(uint8)
+//@   ensures bytes: forall(r, uint32, b, uint32, r < cons.height && b < cons.pitch ==> fbAt(cons, r, b) == ite(r >= pY + cons.offsetY && r < pY + cons.offsetY + old(pH) && b >= pX && b < pX + pW, bg, old(fbAt(cons, r, b))))
+//@   loop 1 (pH > 0) ghost h0 = pH
+//@   loop 1 invariant pH <= h0 && fbRowOffset == (pY + cons.offsetY + (h0 - pH))*cons.pitch + pX && h0 == old(pH)
+//@   loop 1 invariant rows: forall(r, uint32, b, uint32, r < cons.height && b < cons.pitch ==> fbAt(cons, r, b) == ite(r >= pY + cons.offsetY && r < pY + cons.offsetY + (h0 - pH) && b >= pX && b < pX + pW, bg, old(fbAt(cons, r, b))))
+//@   loop 2 (fbOffset < fbRowOffset+pW) invariant fbOffset >= fbRowOffset && fbOffset <= fbRowOffset + pW && pH >= 1
+//@   loop 2 invariant cols: forall(r, uint32, b, uint32, r < cons.height && b < cons.pitch ==> fbAt(cons, r, b) == ite(b >= pX && b < pX + pW && ((r >= pY + cons.offsetY && r < pY + cons.offsetY + (h0 - pH)) || (r == pY + cons.offsetY + (h0 - pH) && b < pX + (fbOffset - fbRowOffset))), bg, old(fbAt(cons, r, b))))
+//@   loop 2 backedge use forall(r, uint32, b, uint32, rowcol(r, b, pY + cons.offsetY + (h0 - pH), pX + (fbOffset - 1 - fbRowOffset), cons.pitch))
+
+//@ func (cons *VesaFbConsole) fbOffset(x uint32, y uint32) (off uint32)
+//@   property C19
+//@   requires cons != nil && ((y + cons.offsetY) % 0x100000000)*cons.pitch + x*cons.bytesPerPixel < 0x100000000 && x*cons.bytesPerPixel < 0x100000000
+//@   ensures off == ((y + cons.offsetY) % 0x100000000)*cons.pitch + x*cons.bytesPerPixel
+
+// colour packing: each component is reduced to its mask size and shifted to its position
+//@ spec rgbaOf(c *VesaFbConsole, i uint8) color.RGBA = unbox(c.palette[i], color.RGBA)
+//@ spec packed16(c *VesaFbConsole, i uint8) uint16 = 0 | (uint16(rgbaOf(c, i).R >> (8 - c.colorInfo.RedMaskSize)) << c.colorInfo.RedPosition) | (uint16(rgbaOf(c, i).G >> (8 - c.colorInfo.GreenMaskSize)) << c.colorInfo.GreenPosition) | (uint16(rgbaOf(c, i).B >> (8 - c.colorInfo.BlueMaskSize)) << c.colorInfo.BluePosition)
+//@ spec packed24(c *VesaFbConsole, i uint8) uint32 = 0 | (uint32(rgbaOf(c, i).R >> (8 - c.colorInfo.RedMaskSize)) << c.colorInfo.RedPosition) | (uint32(rgbaOf(c, i).G >> (8 - c.colorInfo.GreenMaskSize)) << c.colorInfo.GreenPosition) | (uint32(rgbaOf(c, i).B >> (8 - c.colorInfo.BlueMaskSize)) << c.colorInfo.BluePosition)
+
+//@ func (cons *VesaFbConsole) packColor16(colorIndex uint8) (comp [2]uint8)
+//@   property C19
+//@   requires wfVesa(cons) && cons.bpp > 8
+//@   ensures comp[0] == uint8(packed16(cons, colorIndex)) && comp[1] == uint8(packed16(cons, colorIndex) >> 8)
+
+//@ func (cons *VesaFbConsole) packColor24(colorIndex uint8) (comp [3]uint8)
+//@   property C19
+//@   requires wfVesa(cons) && cons.bpp > 8
+//@   ensures comp[0] == uint8(packed24(cons, colorIndex)) && comp[1] == uint8(packed24(cons, colorIndex) >> 8) && comp[2] == uint8(packed24(cons, colorIndex) >> 16)
+
+// byte (r, b) lies in the pixel rectangle (pX, pY, pW, pH) of the text area
+//@ pred inPix(c *VesaFbConsole, r uint32, b uint32, pX uint32, pY uint32, pW uint32, pH uint32) = r >= pY + c.offsetY && r < pY + c.offsetY + pH && b >= pX*c.bytesPerPixel && b < (pX + pW)*c.bytesPerPixel
+//@ pred outsideSame(c *VesaFbConsole, pX uint32, pY uint32, pW uint32, pH uint32) = forall(r, uint32, b, uint32, r < c.height && b < c.pitch && !inPix(c, r, b, pX, pY, pW, pH) ==> fbAt(c, r, b) == old(fbAt(c, r, b)))
+
+//@ func (cons *VesaFbConsole) fill16(pX uint32, pY uint32, pW uint32, pH uint32, bg uint8)
+//@   property C19
+//@   requires wfVesa(cons) && (cons.bpp == 15 || cons.bpp == 16) && pX + pW <= cons.width && pY + pH <= cons.height - cons.offsetY
+//@   modifies elems(uint8)
+//@   ensures frame: outsideSame(cons, pX, pY, pW, old(pH))
+//@   loop 1 (pH > 0) ghost h0 = pH
+//@   loop 1 invariant pH <= h0 && fbRowOffset == (pY + cons.offsetY + (h0 - pH))*cons.pitch + pX*2 && h0 == old(pH) && cons.bytesPerPixel == 2
+//@   loop 1 invariant rows: outsideSame(cons, pX, pY, pW, h0 - pH)
+//@   loop 2 (fbOffset < fbRowOffset+pW*cons.bytesPerPixel) ghost k = 0
+//@   loop 2 step k = k + 1
+//@   loop 2 invariant k <= pW && fbOffset == fbRowOffset + k*2 && pH >= 1
+//@   loop 2 invariant cols: forall(r, uint32, b, uint32, r < cons.height && b < cons.pitch && !inPix(cons, r, b, pX, pY, pW, h0 - pH) && !(r == pY + cons.offsetY + (h0 - pH) && b >= pX*2 && b < pX*2 + k*2) ==> fbAt(cons, r, b) == old(fbAt(cons, r, b)))
+//@   loop 2 backedge use forall(r, uint32, b, uint32, rowcol(r, b, pY + cons.offsetY + (h0 - pH), pX*2 + (k-1)*2, cons.pitch)); forall(r, uint32, b, uint32, rowcol(r, b, pY + cons.offsetY + (h0 - pH), pX*2 + (k-1)*2 + 1, cons.pitch))
+
+//@ func (cons *VesaFbConsole) fill24(pX uint32, pY uint32, pW uint32, pH uint32, bg uint8)
+//@   property C19
+//@   requires wfVesa(cons) && (cons.bpp == 24 || cons.bpp == 32) && pX + pW <= cons.width && pY + pH <= cons.height - cons.offsetY
+//@   modifies elems(uint8)
+//@   ensures frame: outsideSame(cons, pX, pY, pW, old(pH))
+//@   loop 1 (pH > 0) ghost h0 = pH
+//@   loop 1 invariant pH <= h0 && fbRowOffset == (pY + cons.offsetY + (h0 - pH))*cons.pitch + pX*cons.bytesPerPixel && h0 == old(pH) && (cons.bytesPerPixel == 3 || cons.bytesPerPixel == 4)
+//@   loop 1 invariant rows: outsideSame(cons, pX, pY, pW, h0 - pH)
+//@   loop 2 (fbOffset < fbRowOffset+pW*cons.bytesPerPixel) ghost k = 0
+//@   loop 2 step k = k + 1
+//@   loop 2 invariant k <= pW && fbOffset == fbRowOffset + k*cons.bytesPerPixel && pH >= 1
+//@   loop 2 invariant cols: forall(r, uint32, b, uint32, r < cons.height && b < cons.pitch && !inPix(cons, r, b, pX, pY, pW, h0 - pH) && !(r == pY + cons.offsetY + (h0 - pH) && b >= pX*cons.bytesPerPixel && b < pX*cons.bytesPerPixel + k*cons.bytesPerPixel) ==> fbAt(cons, r, b) == old(fbAt(cons, r, b)))
+//@   loop 2 backedge use forall(r, uint32, b, uint32, rowcol(r, b, pY + cons.offsetY + (h0 - pH), (pX + k - 1)*cons.bytesPerPixel, cons.pitch)); forall(r, uint32, b, uint32, rowcol(r, b, pY + cons.offsetY + (h0 - pH), (pX + k - 1)*cons.bytesPerPixel + 1, cons.pitch)); forall(r, uint32, b, uint32, rowcol(r, b, pY + cons.offsetY + (h0 - pH), (pX + k - 1)*cons.bytesPerPixel + 2, cons.pitch))
+
+// Fill in character cells: the same clamping/clipping as the text console, in units of glyphs
+//@ func (cons *VesaFbConsole) Fill(x uint32, y uint32, width uint32, height uint32, fg uint8, bg uint8)
+//@   property C19
+//@   requires wfVesa(cons)
+//@   modifies elems(uint8)
+//@   ensures nofont: cons.font == nil ==> forall(i, int, 0 <= i && i < len(cons.fb) ==> cons.fb[i] == old(cons.fb[i]))
+//@   ensures frame: cons.font != nil && cons.widthInChars >= 1 && cons.heightInChars >= 1 ==> outsideSame(cons, (clampOrg(x, cons.widthInChars) - 1)*cons.font.GlyphWidth, (clampOrg(y, cons.heightInChars) - 1)*cons.font.GlyphHeight, (clipEnd(clampOrg(x, cons.widthInChars), width, cons.widthInChars) - clampOrg(x, cons.widthInChars) + 1)*cons.font.GlyphWidth, (clipEnd(clampOrg(y, cons.heightInChars), height, cons.heightInChars) - clampOrg(y, cons.heightInChars) + 1)*cons.font.GlyphHeight)
+//@   ensures exact8: cons.font != nil && cons.bpp == 8 && cons.widthInChars >= 1 && cons.heightInChars >= 1 ==> forall(r, uint32, b, uint32, r < cons.height && b < cons.pitch && inPix(cons, r, b, (clampOrg(x, cons.widthInChars) - 1)*cons.font.GlyphWidth, (clampOrg(y, cons.heightInChars) - 1)*cons.font.GlyphHeight, (clipEnd(clampOrg(x, cons.widthInChars), width, cons.widthInChars) - clampOrg(x, cons.widthInChars) + 1)*cons.font.GlyphWidth, (clipEnd(clampOrg(y, cons.heightInChars), height, cons.heightInChars) - clampOrg(y, cons.heightInChars) + 1)*cons.font.GlyphHeight) ==> fbAt(cons, r, b) == bg)
+
+// the glyph row bit mask after m pixels of a byte have been consumed
+//@ spec maskAt(m uint32) uint8 = ite(m == 0, 128, ite(m == 1, 64, ite(m == 2, 32, ite(m == 3, 16, ite(m == 4, 8, ite(m == 5, 4, ite(m == 6, 2, 1)))))))
+//@ pred cellFits(c *VesaFbConsole, pX uint32, pY uint32) = c.font != nil && pX + c.font.GlyphWidth <= c.width && pY + c.font.GlyphHeight <= c.height - c.offsetY
+
+//@ func (cons *VesaFbConsole) write8(glyphIndex uint8, fg uint8, bg uint8, pX uint32, pY uint32)
+//@   property C19
+//@   requires wfVesa(cons) && cons.bytesPerPixel == 1 && cellFits(cons, pX, pY)
+//@   modifies elems(uint8)
+//@   ensures frame: outsideSame(cons, pX, pY, cons.font.GlyphWidth, cons.font.GlyphHeight)
+//@   ensures colours: forall(r, uint32, b, uint32, r < cons.height && b < cons.pitch && inPix(cons, r, b, pX, pY, cons.font.GlyphWidth, cons.font.GlyphHeight) ==> fbAt(cons, r, b) == fg || fbAt(cons, r, b) == bg)
+//@   loop 1 (y < cons.font.GlyphHeight) invariant y <= cons.font.GlyphHeight && fontOffset == glyphIndex*cons.font.BytesPerRow*cons.font.GlyphHeight + y*cons.font.BytesPerRow && fbRowOffset == (pY + cons.offsetY + y)*cons.pitch + pX
+//@   loop 1 invariant rows: outsideSame(cons, pX, pY, cons.font.GlyphWidth, y) && forall(r, uint32, b, uint32, r < cons.height && b < cons.pitch && inPix(cons, r, b, pX, pY, cons.font.GlyphWidth, y) ==> fbAt(cons, r, b) == fg || fbAt(cons, r, b) == bg)
+//@   loop 2 (x < cons.font.GlyphWidth) invariant x <= cons.font.GlyphWidth && y < cons.font.GlyphHeight && fbOffset == fbRowOffset + x && fbRowOffset == (pY + cons.offsetY + y)*cons.pitch + pX
+//@   loop 2 invariant font: fontOffset == glyphIndex*cons.font.BytesPerRow*cons.font.GlyphHeight + y*cons.font.BytesPerRow + ite(x == 0, 0, (x-1)/8) && mask == ite(x > 0 && x%8 == 0, 0, maskAt(x%8))
+//@   loop 2 invariant cols: forall(r, uint32, b, uint32, r < cons.height && b < cons.pitch && !inPix(cons, r, b, pX, pY, cons.font.GlyphWidth, y) && !(r == pY + cons.offsetY + y && b >= pX && b < pX + x) ==> fbAt(cons, r, b) == old(fbAt(cons, r, b)))
+//@   loop 2 invariant colsin: forall(r, uint32, b, uint32, r < cons.height && b < cons.pitch && (inPix(cons, r, b, pX, pY, cons.font.GlyphWidth, y) || (r == pY + cons.offsetY + y && b >= pX && b < pX + x)) ==> fbAt(cons, r, b) == fg || fbAt(cons, r, b) == bg)
+//@   loop 2 backedge use forall(r, uint32, b, uint32, rowcol(r, b, pY + cons.offsetY + y, pX + x - 1, cons.pitch))
+
+//@ func (cons *VesaFbConsole) write16(glyphIndex uint8, fg uint8, bg uint8, pX uint32, pY uint32)
+//@   property C19
+//@   requires wfVesa(cons) && (cons.bpp == 15 || cons.bpp == 16) && cellFits(cons, pX, pY)
+//@   modifies elems(uint8)
+//@   ensures frame: outsideSame(cons, pX, pY, cons.font.GlyphWidth, cons.font.GlyphHeight)
+//@   loop 1 (y < cons.font.GlyphHeight) invariant y <= cons.font.GlyphHeight && fontOffset == glyphIndex*cons.font.BytesPerRow*cons.font.GlyphHeight + y*cons.font.BytesPerRow && fbRowOffset == (pY + cons.offsetY + y)*cons.pitch + pX*2 && cons.bytesPerPixel == 2
+//@   loop 1 invariant rows: outsideSame(cons, pX, pY, cons.font.GlyphWidth, y)
+//@   loop 2 (x < cons.font.GlyphWidth) invariant x <= cons.font.GlyphWidth && y < cons.font.GlyphHeight && fbOffset == fbRowOffset + x*2 && fbRowOffset == (pY + cons.offsetY + y)*cons.pitch + pX*2
+//@   loop 2 invariant font: fontOffset == glyphIndex*cons.font.BytesPerRow*cons.font.GlyphHeight + y*cons.font.BytesPerRow + ite(x == 0, 0, (x-1)/8) && mask == ite(x > 0 && x%8 == 0, 0, maskAt(x%8))
+//@   loop 2 invariant cols: forall(r, uint32, b, uint32, r < cons.height && b < cons.pitch && !inPix(cons, r, b, pX, pY, cons.font.GlyphWidth, y) && !(r == pY + cons.offsetY + y && b >= pX*2 && b < (pX + x)*2) ==> fbAt(cons, r, b) == old(fbAt(cons, r, b)))
+//@   loop 2 backedge use forall(r, uint32, b, uint32, rowcol(r, b, pY + cons.offsetY + y, (pX + x - 1)*2, cons.pitch)); forall(r, uint32, b, uint32, rowcol(r, b, pY + cons.offsetY + y, (pX + x - 1)*2 + 1, cons.pitch))
+
+//@ func (cons *VesaFbConsole) write24(glyphIndex uint8, fg uint8, bg uint8, pX uint32, pY uint32)
+//@   property C19
+//@   requires wfVesa(cons) && (cons.bpp == 24 || cons.bpp == 32) && cellFits(cons, pX, pY)
+//@   modifies elems(uint8)
+//@   ensures frame: outsideSame(cons, pX, pY, cons.font.GlyphWidth, cons.font.GlyphHeight)
+//@   loop 1 (y < cons.font.GlyphHeight) invariant y <= cons.font.GlyphHeight && fontOffset == glyphIndex*cons.font.BytesPerRow*cons.font.GlyphHeight + y*cons.font.BytesPerRow && fbRowOffset == (pY + cons.offsetY + y)*cons.pitch + pX*cons.bytesPerPixel && (cons.bytesPerPixel == 3 || cons.bytesPerPixel == 4)
+//@   loop 1 invariant rows: outsideSame(cons, pX, pY, cons.font.GlyphWidth, y)
+//@   loop 2 (x < cons.font.GlyphWidth) invariant x <= cons.font.GlyphWidth && y < cons.font.GlyphHeight && fbOffset == fbRowOffset + x*cons.bytesPerPixel && fbRowOffset == (pY + cons.offsetY + y)*cons.pitch + pX*cons.bytesPerPixel
+//@   loop 2 invariant font: fontOffset == glyphIndex*cons.font.BytesPerRow*cons.font.GlyphHeight + y*cons.font.BytesPerRow + ite(x == 0, 0, (x-1)/8) && mask == ite(x > 0 && x%8 == 0, 0, maskAt(x%8))
+//@   loop 2 invariant cols: forall(r, uint32, b, uint32, r < cons.height && b < cons.pitch && !inPix(cons, r, b, pX, pY, cons.font.GlyphWidth, y) && !(r == pY + cons.offsetY + y && b >= pX*cons.bytesPerPixel && b < (pX + x)*cons.bytesPerPixel) ==> fbAt(cons, r, b) == old(fbAt(cons, r, b)))
+//@   loop 2 backedge use forall(r, uint32, b, uint32, rowcol(r, b, pY + cons.offsetY + y, (pX + x - 1)*cons.bytesPerPixel, cons.pitch)); forall(r, uint32, b, uint32, rowcol(r, b, pY + cons.offsetY + y, (pX + x - 1)*cons.bytesPerPixel + 1, cons.pitch)); forall(r, uint32, b, uint32, rowcol(r, b, pY + cons.offsetY + y, (pX + x - 1)*cons.bytesPerPixel + 2, cons.pitch))
+
+// Write: out-of-grid coordinates (or no font) change nothing; otherwise only the bytes of the
+// addressed cell's pixel block change (row padding and logo rows included in "nothing else")
+//@ func (cons *VesaFbConsole) Write(ch byte, fg uint8, bg uint8, x uint32, y uint32)
+//@   property C19
+//@   requires wfVesa(cons)
+//@   modifies elems(uint8)
+//@   ensures outside: x < 1 || x > cons.widthInChars || y < 1 || y > cons.heightInChars || cons.font == nil ==> forall(i, int, 0 <= i && i < len(cons.fb) ==> cons.fb[i] == old(cons.fb[i]))
+//@   ensures cell: x >= 1 && x <= cons.widthInChars && y >= 1 && y <= cons.heightInChars && cons.font != nil ==> outsideSame(cons, (x-1)*cons.font.GlyphWidth, (y-1)*cons.font.GlyphHeight, cons.font.GlyphWidth, cons.font.GlyphHeight)
+//@   ensures colours8: x >= 1 && x <= cons.widthInChars && y >= 1 && y <= cons.heightInChars && cons.font != nil && cons.bpp == 8 ==> forall(r, uint32, b, uint32, r < cons.height && b < cons.pitch && inPix(cons, r, b, (x-1)*cons.font.GlyphWidth, (y-1)*cons.font.GlyphHeight, cons.font.GlyphWidth, cons.font.GlyphHeight) ==> fbAt(cons, r, b) == fg || fbAt(cons, r, b) == bg)
+
+// Scroll moves the text rows (everything below the logo) by lines*GlyphHeight pixel rows; whole
+// pitch-wide rows are copied
+//@ spec rowsOf(c *VesaFbConsole, lines uint32) uint32 = lines*c.font.GlyphHeight
+//@ func (cons *VesaFbConsole) Scroll(dir ScrollDir, lines uint32)
+//@   property C19
+//@   requires wfVesa(cons)
+//@   modifies elems(uint8)
+//@   ensures ignored: cons.font == nil || lines == 0 || lines > cons.heightInChars || (dir != ScrollDirUp && dir != ScrollDirDown) ==> forall(j, int, 0 <= j && j < len(cons.fb) ==> cons.fb[j] == old(cons.fb[j]))
+//@   ensures up: cons.font != nil && lines >= 1 && lines <= cons.heightInChars && dir == ScrollDirUp ==> forall(j, int, 0 <= j && j < len(cons.fb) ==> cons.fb[j] == ite(j >= cons.offsetY*cons.pitch && j < (cons.height - rowsOf(cons, lines))*cons.pitch, old(cons.fb[j + rowsOf(cons, lines)*cons.pitch]), old(cons.fb[j])))
+//@   ensures down: cons.font != nil && lines >= 1 && lines <= cons.heightInChars && dir == ScrollDirDown ==> forall(j, int, 0 <= j && j < len(cons.fb) ==> cons.fb[j] == ite(j >= (rowsOf(cons, lines) + cons.offsetY)*cons.pitch, old(cons.fb[j - rowsOf(cons, lines)*cons.pitch]), old(cons.fb[j])))
+//@   ensures padding: forall(r, uint32, b, uint32, r < cons.height && b >= cons.width*cons.bytesPerPixel && b < cons.pitch ==> fbAt(cons, r, b) == old(fbAt(cons, r, b)))
+//@   loop 1 (i < endOffset) invariant i >= startOffset && (i <= endOffset || endOffset < startOffset) && offset == rowsOf(cons, lines)*cons.pitch && startOffset == cons.offsetY*cons.pitch && endOffset == (cons.height - rowsOf(cons, lines))*cons.pitch && rowsOf(cons, lines) <= cons.height - cons.offsetY
+//@   loop 1 invariant moved: forall(j, int, 0 <= j && j < len(cons.fb) ==> cons.fb[j] == ite(j >= startOffset && j < i, old(cons.fb[j + offset]), old(cons.fb[j])))
+//@   loop 2 (i >= startOffset) invariant i >= startOffset - 1 && i <= len(cons.fb) - 1 && offset == rowsOf(cons, lines)*cons.pitch && startOffset == (rowsOf(cons, lines) + cons.offsetY)*cons.pitch && rowsOf(cons, lines) <= cons.height - cons.offsetY && rowsOf(cons, lines) >= 1
+//@   loop 2 invariant moved: forall(j, int, 0 <= j && j < len(cons.fb) ==> cons.fb[j] == ite(j > i, old(cons.fb[j - offset]), old(cons.fb[j])))
+//@   loop 2 inbody use cons.pitch >= 1 && offset >= cons.pitch && startOffset >= offset && i >= offset
